@@ -224,8 +224,8 @@ func (b *B) Say(loud bool) (interface{}, error) {
 func (q *Query) Odd() (interface{}, error)  { return q.r("odd", nil) }
 func (q *Query) Odds() (interface{}, error) { return q.r("odds", nil) }
 func (q *Query) Pv() (interface{}, error)   { return q.r("pv", nil) }
-func (q *Query) Pp() (interface{}, error) { return q.r("pp", nil) }
-func (q *Query) Ps() (interface{}, error) { return q.r("ps", nil) }
+func (q *Query) Pp() (interface{}, error)   { return q.r("pp", nil) }
+func (q *Query) Ps() (interface{}, error)   { return q.r("ps", nil) }
 
 // NilOf is a nil pointer of the Go type that realises the GraphQL type (for an interface or union one of its members).
 func NilOf(typeName string) interface{} {
